@@ -11,6 +11,7 @@ import (
 	"sort"
 
 	"github.com/pokt-network/pocket-core/app"
+	posCrypto "github.com/pokt-network/pocket-core/crypto"
 	sdk "github.com/pokt-network/pocket-core/types"
 	appsTypes "github.com/pokt-network/pocket-core/x/apps/types"
 	"github.com/pokt-network/pocket-core/x/auth"
@@ -91,7 +92,13 @@ type TxRecord struct {
 	Encs      []string
 }
 
-func (s *Sim) key(idx int) sdk.Address { return AddrOf(KeyFor(s.cfg.KeySeed, idx)) }
+func (s *Sim) key(idx int) sdk.Address {
+	if isMulti(idx) {
+		mk, _ := MultiKeyFor(s.cfg.KeySeed, idx)
+		return sdk.Address(mk.Address())
+	}
+	return AddrOf(KeyFor(s.cfg.KeySeed, idx))
+}
 
 // buildMsg constructs the message of a tx step.
 func (s *Sim) buildMsg(st *Step) (sdk.ProtoMsg, error) {
@@ -171,6 +178,22 @@ func (s *Sim) buildTx(st *Step) *TxRecord {
 		return rec
 	}
 	sig := authTypes.StdSignature{Signature: sigBz, PublicKey: priv.PublicKey()}
+	signAddr := AddrOf(priv).String()
+	if isMulti(st.SignKey) {
+		mk, members := MultiKeyFor(s.cfg.KeySeed, st.SignKey)
+		var ms posCrypto.MultiSig = posCrypto.MultiSignature{}.NewMultiSignature()
+		for i, m := range members {
+			b, err := m.Sign(signBytes)
+			if err != nil {
+				rec.BuildErr = err.Error()
+				return rec
+			}
+			ms = ms.AddSignatureByIndex(b, i)
+		}
+		sigBz = ms.Marshal()
+		sig = authTypes.StdSignature{Signature: sigBz, PublicKey: mk}
+		signAddr = sdk.Address(mk.Address()).String()
+	}
 	switch st.Sig {
 	case "flip":
 		sig.Signature = append([]byte{}, sigBz...)
@@ -179,7 +202,7 @@ func (s *Sim) buildTx(st *Step) *TxRecord {
 		sig.Signature = nil
 	}
 	if st.Sig == "ok" || st.Sig == "" {
-		rec.SignAddr = AddrOf(priv).String()
+		rec.SignAddr = signAddr
 	}
 	tx := authTypes.NewTx(msg, fee, sig, st.Memo, st.Entropy)
 	bz, err := auth.DefaultTxEncoder(app.Codec())(tx, -1)
